@@ -39,6 +39,8 @@ def configs(tier, seed):
         combos += [("uint32", 4, [2, 2, 2], 11), ("uint8", 1, [1024, 1024, 1024], None), ("uint64", 2, [4, 8, 16], 1)]
     for dt, C, cs, sb in combos:
         out.append(dict(harness="stats", dtype=dt, C=C, cs=cs, shard_bits=sb, scales=2, cost=1))
+    # a scale may list several chunk layouts: each one is a full copy of the data
+    out.append(dict(harness="stats", dtype="uint16", C=1, cs=[32, 32, 32], cs2=[16, 64, 8], shard_bits=None, scales=2, cost=2))
     return out
 
 
@@ -94,7 +96,8 @@ def H_stats(ctx, cfg):
         for s in sz:
             ctx.assume(z3.And(s.e >= 1, s.e <= 10 ** 9))
         sizes.append(sz)
-        sc = dict(key=f"k{i}", size=sz, chunk_sizes=[cs], encoding="raw", resolution=[1, 1, 1], voxel_offset=[0, 0, 0])
+        layouts = [cs] + ([cfg["cs2"]] if cfg.get("cs2") and i == 0 else [])
+        sc = dict(key=f"k{i}", size=sz, chunk_sizes=layouts, encoding="raw", resolution=[1, 1, 1], voxel_offset=[0, 0, 0])
         if cfg["shard_bits"] is not None:
             sc["sharding"] = {"@type": "neuroglancer_uint64_sharded_v1", "shard_bits": cfg["shard_bits"],
                               "minishard_bits": 1, "preshift_bits": 0, "hash": "identity",
@@ -107,22 +110,26 @@ def H_stats(ctx, cfg):
     ss.show_scales_info(info)
     itemsize = real_np.dtype(dt).itemsize
     tot_chunks, tot_bytes = 0, 0
-    ctx.prove(len(printed) == cfg["scales"] + 2, "one-line-per-scale-plus-total", detail=str(len(printed)))
+    nlines = sum(len(sc["chunk_sizes"]) for sc in scales)
+    ctx.prove(len(printed) == nlines + 2, "one-line-per-scale-and-layout-plus-total", detail=str(len(printed)))
+    line = 0
     for i, sz in enumerate(sizes):
-        nums = [p for p in parse(printed[i]) if isinstance(p, SDecimal)]
-        nchunks = 1
-        nbytes = itemsize * C
-        for d in range(3):
-            nchunks = nchunks * ((sz[d].e - 1) / cs[d] + 1)       # z3 Int division: floor for positive divisors
-            nbytes = nbytes * sz[d].e
-        tot_chunks = tot_chunks + nchunks
-        tot_bytes = tot_bytes + nbytes
-        ctx.prove(nums[0].D == nchunks, "reported-chunk-count-is-product-of-ceil(size/chunk)")
-        ctx.prove(logged[i].e == nbytes, "reported-bytes-is-voxels*itemsize*channels")
+        for lay in scales[i]["chunk_sizes"]:
+            nums = [p for p in parse(printed[line]) if isinstance(p, SDecimal)]
+            nchunks = 1
+            nbytes = itemsize * C
+            for d in range(3):
+                nchunks = nchunks * ((sz[d].e - 1) / lay[d] + 1)       # z3 Int division: floor for positive divisors
+                nbytes = nbytes * sz[d].e
+            tot_chunks = tot_chunks + nchunks
+            tot_bytes = tot_bytes + nbytes
+            ctx.prove(nums[0].D == nchunks, "reported-chunk-count-is-product-of-ceil(size/chunk)")
+            ctx.prove(logged[line].e == nbytes, "reported-bytes-is-voxels*itemsize*channels")
+            line += 1
     nums = [p for p in parse(printed[-1]) if isinstance(p, SDecimal)]
     ctx.sample(dict(line=[p if isinstance(p, str) else "<num>" for p in parse(printed[0])]))
-    ctx.prove(nums[0].D == tot_chunks, "total-chunks-is-sum")
-    ctx.prove(logged[-1].e == tot_bytes, "total-bytes-is-sum")
+    ctx.prove(nums[0].D == tot_chunks, "total-chunks-is-sum-over-scales-and-layouts")
+    ctx.prove(logged[-1].e == tot_bytes, "total-bytes-is-sum-over-scales-and-layouts")
 
 
 # --------------------------------------------------------------------- replay
@@ -156,7 +163,8 @@ def replay(cfg, cex):
     dt, C, cs = cfg["dtype"], cfg["C"], cfg["cs"]
     scales = []
     for i, sz in enumerate(inp["sizes"]):
-        sc = dict(key=f"k{i}", size=sz, chunk_sizes=[cs], encoding="raw", resolution=[1, 1, 1], voxel_offset=[0, 0, 0])
+        layouts = [cs] + ([cfg["cs2"]] if cfg.get("cs2") and i == 0 else [])
+        sc = dict(key=f"k{i}", size=sz, chunk_sizes=layouts, encoding="raw", resolution=[1, 1, 1], voxel_offset=[0, 0, 0])
         if cfg["shard_bits"] is not None:
             sc["sharding"] = {"shard_bits": cfg["shard_bits"]}
         scales.append(sc)
@@ -170,24 +178,25 @@ def replay(cfg, cex):
         return True, f"show_scales_info raised {type(e).__name__} for sizes {inp['sizes']} (chunk {cs})"
     lines = buf.getvalue().splitlines()
     import re
-    tot = 0
-    for i, sz in enumerate(inp["sizes"]):
-        want = math.prod(-(-s // c) for s, c in zip(sz, cs))
-        tot += want
-        got = builtins.int(re.search(r": ([\d,\-]+) chunks", lines[i]).group(1).replace(",", ""))
-        if got != want:
-            return True, f"scale {i} size {sz} chunk {cs}: reported {got} chunks, real {want}: {lines[i]}"
+    utils = load.mod("utils")
+    itemsize = real_np.dtype(dt).itemsize
+    tot, totb, line = 0, 0, 0
+    for i, sc in enumerate(scales):
+        sz = sc["size"]
+        for lay in sc["chunk_sizes"]:
+            want = math.prod(-(-s // c) for s, c in zip(sz, lay))
+            nb = math.prod(sz) * itemsize * C
+            tot += want
+            totb += nb
+            got = builtins.int(re.search(r": ([\d,\-]+) chunks", lines[line]).group(1).replace(",", ""))
+            if got != want:
+                return True, f"scale {i} size {sz} chunk {lay}: reported {got} chunks, real {want}: {lines[line]}"
+            if utils.readable_count(nb) + "B" not in lines[line]:
+                return True, f"scale {i}: size line {lines[line]!r} does not show {utils.readable_count(nb)}B for {nb} bytes"
+            line += 1
     got = builtins.int(re.search(r"Total: ([\d,\-]+) chunks", lines[-1]).group(1).replace(",", ""))
     if got != tot:
         return True, f"total reported {got}, real {tot}"
-    utils = load.mod("utils")
-    itemsize = real_np.dtype(dt).itemsize
-    totb = 0
-    for i, sz in enumerate(inp["sizes"]):
-        nb = math.prod(sz) * itemsize * C
-        totb += nb
-        if utils.readable_count(nb) + "B" not in lines[i]:
-            return True, f"scale {i}: size line {lines[i]!r} does not show {utils.readable_count(nb)}B for {nb} bytes"
     if utils.readable_count(totb) + "B" not in lines[-1]:
-        return True, f"total line {lines[-1]!r} does not show {utils.readable_count(totb)}B"
+        return True, f"total line {lines[-1]!r} does not show {utils.readable_count(totb)}B (sizes {inp['sizes']})"
     return False, "statistics correct on the real code"
